@@ -156,14 +156,20 @@ inductive Input where
   | sparse (s : Sparse)
   | edges (es : List (Nat × Nat)) (nNodes : Option Nat)
 
+/-- the `if adjacency is not None … elif edge_list is not None …` of `__init__` -/
+def construct (net0 : Net) (inp : Input) : Except Err Net :=
+  match inp with
+  | .sparse s => setAdjacency net0 s
+  | .edges es n => setEdgeList net0 es n
+
+/-- `self.N = n_nodes` if given, else 0 -/
+def Input.n0 : Input → Nat
+  | .edges _ (some n) => n
+  | _ => 0
+
 /-- `Network.__init__` -/
 def init (directed : Bool) (inp : Input) (w : Option (List Rat)) : Except Err Net := do
-  let net0 := Net.blank directed (match inp with
-    | .edges _ (some n) => n
-    | _ => 0)
-  let net1 ← match inp with
-    | .sparse s => setAdjacency net0 s
-    | .edges es n => setEdgeList net0 es n
+  let net1 ← construct (Net.blank directed inp.n0) inp
   setWeights net1 w
 
 /-- the sparse matrix `self.sp_A` (canonical, no explicit zeros) -/
@@ -241,19 +247,21 @@ def igAdj (g : IGraph) (i j : Nat) : Int :=
   if g.directed then (g.edges.count (i, j) : Int)
   else (g.edges.count (i, j) : Int) + (if i == j then 0 else (g.edges.count (j, i) : Int))
 
+/-- `net.node_weights = …` guarded by a condition (`none` = the assignment is skipped) -/
+def assignWeights (net : Net) (w : Option (Option (List Rat))) : Except Err Net :=
+  match w with
+  | some w => setWeights net w
+  | none => .ok net
+
 /-- `SpatialNetwork.Load` / `GeoNetwork.Load` after reading the graph
 (spatial_network.py:177-200, geo_network.py:167-190): rebuilt from the dense
 adjacency matrix; `geoW` are the weights `GeoNetwork.__init__` sets before the
 stored ones are assigned (`none` for `SpatialNetwork`) -/
 def loadViaAdjacency (g : IGraph) (geoW : Option (Option (List Rat))) : Except Err Net := do
   let net ← init g.directed (.sparse (ofDenseMat g.n g.n (igAdj g))) none
-  let net ← match geoW with
-    | some w => setWeights net w
-    | none => pure net
-  let net ← match g.vw with
-    | some w => setWeights net (some w)
-    | none => pure net
-  pure { net with graph := g.edges, eattr := g.ea }
+  let net ← assignWeights net geoW
+  let net ← assignWeights net (g.vw.map some)       -- if "node_weight_nsi" in attribute names
+  pure { net with graph := g.edges, eattr := g.ea }  -- net.graph = graph
 
 /-- `GeoNetwork.set_node_weight_type` (geo_network.py:90-118): 1 = "surface",
 2 = "irrigation", anything else = unit weights -/
